@@ -283,6 +283,11 @@ def impose_measure_applies_every_collapse(ctx):
         a = 'mystic.math.measures:' + hname
         hf = ctx.func(a)
         got, want = SB.agree(hf.node, R18[a], strict_casts=True)
+        if got != want and (a + '#two-phase') in R18:
+            # the groups tools.connected returns are disjoint: all group sums first, then all stores, is the same move (see C18.e)
+            got2, want2 = SB.agree(hf.node, R18[a + '#two-phase'], strict_casts=True)
+            if got2 == want2:
+                got, want = got2, want2
         ctx.stats['terms_compared'] += len(got)
         ctx.check(got == want, hname, hwhat, '%s (applied by impose_measure) differs from its confirmed behaviour: %s' % (hname, SB.diff(got, want)), hf, hf.node)
     for node, src, what, label in ((outer, ref_outer, 'a single dict is wrapped in a tuple; nothing is merged', 'impose_measure'),
